@@ -1336,6 +1336,9 @@ impl Formatter {
         let mut is_min_set = false;
         let mut is_sec_set = false;
         let mut is_fraction_set = false;
+        // A meridian indicator that is left out at the end of the input leaves `dt.ampm` empty,
+        // so whether the field code has been seen is tracked separately.
+        let mut is_ampm_set = false;
 
         let mut dow: Option<WeekDay> = None;
         let mut doy: Option<u32> = None;
@@ -1458,7 +1461,7 @@ impl Formatter {
                                 "format code (hour) appears twice".try_to_string()?,
                             ));
                         }
-                        if dt.ampm.is_some() {
+                        if is_ampm_set {
                             return Err(Error::ParseError(
                                 "'HH24' precludes use of meridian indicator".try_to_string()?,
                             ));
@@ -1574,7 +1577,7 @@ impl Formatter {
                 }
                 Field::AmPm(style) => {
                     if T::HAS_TIME && !T::IS_INTERVAL_DT {
-                        if dt.ampm.is_some() {
+                        if is_ampm_set {
                             return Err(Error::ParseError(
                                 "format code (am/pm) appears twice".try_to_string()?,
                             ));
@@ -1591,6 +1594,7 @@ impl Formatter {
                         if dt.ampm.is_some() {
                             dt.adjust_hour12();
                         }
+                        is_ampm_set = true;
                     } else {
                         return Err(Error::ParseError(
                             "date format not recognized".try_to_string()?,
